@@ -572,7 +572,38 @@ pub fn run_c09(ctx: &Ctx) -> i32 {
             }
         }
     }
+    // a first "synchronised" report whose measurement cannot be represented (a PHC error bound near i64::MAX, chrony
+    // floats at the top of their range): whatever the daemon does with it - dying is acceptable - it must not go on
+    // advertising trust with the placeholder (as-of 0) that it still holds
+    let mut extreme_cases = 0u64;
+    {
+        let tails = sequences(&NONSYNC_OUT, 2);
+        let extremes: Vec<(&str, i64, TrackSpec)> = vec![
+            ("PHC error bound i64::MAX", i64::MAX, Out::S1.spec(R0).unwrap()),
+            ("PHC error bound i64::MAX - 10 ms", i64::MAX - 10_000_000, Out::S1.spec(R0).unwrap()),
+            ("offset, delay and dispersion at the largest chrony float", 1, TrackSpec { offset_bits: 0x7EFF_FFFF, delay_bits: 0x7EFF_FFFF, disp_bits: 0x7EFF_FFFF, ..Out::S1.spec(R0).unwrap() }),
+        ];
+        for (what, phc, spec) in &extremes {
+            for tail in &tails {
+                extreme_cases += 1;
+                vclock::arm(VClock { real_ns: R0, mono_ns: 110 * S, auto_advance_ns: 0, fail_errno: 0, fail_clock: -1 });
+                let mut msgs: Vec<Message> = vec![Message::ClockErrorBoundData((tracking_of(spec), *phc, as_of_for(100, 0)))];
+                msgs.extend(tail.iter().enumerate().map(|(i, o)| o.message(R0, 0, as_of_for(100, i + 1))));
+                let r = std::panic::catch_unwind(|| pipeline::published_for(msgs, 1000));
+                vclock::disarm();
+                if let Ok(recs) = r {
+                    for (i, rec) in recs.iter().enumerate() {
+                        if rec.status != 0 && rec.as_of_s == 0 && rec.as_of_ns == 0 {
+                            sink.add("C09:placeholder-trusted-after-rejected-measurement".into(), format!("first report: synchronised with {what}; then {:?}: publication {i} has status {} with the placeholder (as-of 0, bound {} ns) - no measurement was ever accepted", seq_name(tail), status_name(rec.status), rec.bound), json!({"check": "C09", "phase": "first synchronised report not representable", "first_report": what, "then": seq_name(tail), "failing_publication": i, "published": rec.json()}));
+                            break;
+                        }
+                    }
+                }
+            }
+        }
+    }
     let coverage = cov(vec![
+        ("first_report_not_representable_cases", json!(extreme_cases)),
         ("restarts_through_the_real_ShmWriter", json!(restart_cases)),
         ("states", json!(distinct.len().max(1))),
         ("transitions", json!(n * depth as u64)),
